@@ -1348,6 +1348,7 @@ func multiCheck(g *hc.Gen, o *hc.Out, pr *hc.Proc, rows [][]value.Primary, c cas
 				lawCap(o, "analytic:multi_function_inconsistent", replay(map[string]interface{}{
 					"id": id, "column": fmt.Sprintf("r%d", k+1), "function": members[mi].c.callSQL(),
 					"in_combined_query": hc.EncVal(cell), "alone": hc.EncVal(members[mi].single[id]),
+					"in_combined_query_text": cell.String(), "alone_text": members[mi].single[id].String(),
 					"single_sql": "SELECT id, " + members[mi].c.callSQL() + " AS r FROM t"}))
 				return
 			}
